@@ -2,7 +2,7 @@
    the functional one. *)
 From Coq Require Import String List NArith Bool Lia Arith Permutation.
 Import ListNotations.
-Require Import Show MetaTable MetaBase MetaBaseFacts MetaShow MetaModel MetaFacts MetaModel3 MetaFacts3 MetaHeap.
+Require Import Show MetaTable MetaBase MetaBaseFacts MetaShow MetaModel MetaFacts MetaModel3 MetaFacts3 MetaModels MetaFinal3 MetaHeap.
 Open Scope N_scope.
 Arguments N.eqb : simpl never.
 Arguments N.leb : simpl never.
@@ -125,11 +125,16 @@ Proof.
       destruct (I g) as [[C' R']|[c [C' E']]]; [left; auto | right; eauto].
   - rewrite C. split; [split; auto|]. rewrite E. f_equal. destruct c as [l|e]; cbn [deref_c]; [now rewrite HV | reflexivity].
 Qed.
-Lemma hreads_inv ks : forall w hi, HInv w hi -> let '(_, _, rs) := hreads O w hi ks in rs = map (attr3 O data0) ks.
+Lemma hreads_inv ks : forall w hi, HInv w hi -> let '(w', hi', rs) := hreads O w hi ks in HInv w' hi' /\ rs = map (attr3 O data0) ks.
 Proof.
   induction ks as [|k t IH]; intros w hi H; cbn [hreads map]; auto.
   pose proof (hread_inv w hi k H) as H1. destruct (hread O w hi k) as [[w1 hi1] r]. destruct H1 as [H1 ->].
-  specialize (IH w1 hi1 H1). destruct (hreads O w1 hi1 t) as [[w2 hi2] rs]. now rewrite IH.
+  specialize (IH w1 hi1 H1). destruct (hreads O w1 hi1 t) as [[w2 hi2] rs]. destruct IH as [IH ->]. auto.
+Qed.
+Lemma hinv_from_raw dl : lookup dl (w_dicts w0) = Some d0 -> let '(w1, hi) := from_raw_h w0 dl in HInv w1 hi.
+Proof.
+  intros L. unfold from_raw_h. split; [reflexivity|]. intros k. left. split; [reflexivity|].
+  cbn [hi_raw w_dicts lookup]. rewrite seqb_refl. cbn [odict]. now rewrite L.
 Qed.
 
 (* REFINEMENT: on the heap, reading attributes of the object built by from_raw gives exactly what the functional model [reads3] gives on
@@ -137,9 +142,24 @@ Qed.
 Theorem heap_refines_reads3 dl ks : lookup dl (w_dicts w0) = Some d0 ->
   let '(w1, hi) := from_raw_h w0 dl in let '(_, _, rs) := hreads O w1 hi ks in rs = reads3 O (init data0) ks.
 Proof.
-  intros L. unfold from_raw_h. rewrite reads3_history_independent.
-  apply (hreads_inv ks). split; [reflexivity|]. intros k. left. split; [reflexivity|].
-  cbn [hi_raw w_dicts lookup]. rewrite seqb_refl. cbn [odict]. now rewrite L.
+  intros L. pose proof (hinv_from_raw dl L) as H. destruct (from_raw_h w0 dl) as [w1 hi]. rewrite reads3_history_independent.
+  pose proof (hreads_inv ks w1 hi H) as H2. destruct (hreads O w1 hi ks) as [[w2 hi2] rs]. tauto.
+Qed.
+
+(* THE VALIDATED OBJECT ON THE HEAP.  Whatever reads [vks] the construction performs (from_raw(validate=True): [validation_reads]), the
+   caller's dict object and every value object are as before, and the object then answers every read sequence exactly like the object
+   [s] that the functional model's from_raw returns *)
+Theorem validated_object_on_heap dl ord s vks ks : lookup dl (w_dicts w0) = Some d0 -> from_raw3_ord ord O true data0 = FOk s ->
+  let '(w1, hi) := from_raw_h w0 dl in
+  let '(w2, hi2, _) := hreads O w1 hi vks in
+  (lookup dl (w_dicts w2) = Some d0 /\ w_vals w2 = w_vals w0) /\
+  let '(_, _, rs) := hreads O w2 hi2 ks in rs = reads3 O s ks.
+Proof.
+  intros L A. pose proof (caller_dict_untouched w0 dl d0 vks L) as C. pose proof (hinv_from_raw dl L) as H.
+  destruct (from_raw_h w0 dl) as [w1 hi]. pose proof (hreads_inv vks w1 hi H) as H2.
+  destruct (hreads O w1 hi vks) as [[w2 hi2] rs0]. destruct H2 as [H2 _]. split; [exact C|].
+  pose proof (hreads_inv ks w2 hi2 H2) as H3. destruct (hreads O w2 hi2 ks) as [[w3 hi3] rs]. destruct H3 as [_ ->].
+  symmetry. eapply MetaFinal3.accepted3_reads; eauto.
 Qed.
 End Heap.
 
@@ -159,7 +179,7 @@ Definition heap_check : bool :=
   (* shallow: the caller changes its keywords list in place AFTER the first read - the Metadata object shows the change;
      the same on dynamic (converted: a new list) is not seen; rebinding the key is not seen either *)
   let '(_, _, rs) := hrun O_id caller_loc (w1, hi1)
-       [HRead (asc "keywords"); HRead (asc "dynamic"); HMutCaller (asc "keywords") [asc "k"; asc "x"]; HMutCaller (asc "dynamic") [asc "Name"];
+       [HRead (asc "keywords"); HRead (asc "dynamic"); HMutCaller (asc "keywords") (VList [asc "k"; asc "x"]); HMutCaller (asc "dynamic") (VList [asc "Name"]);
         HRead (asc "keywords"); HRead (asc "dynamic"); HSet (asc "keywords") []; HRead (asc "keywords")] in
   match rs with
   | [Ok (EList [_]); Ok (EList [_]); Ok (EList [_; _]); Ok (EList [_]); Ok (EList [_; _])] => true
